@@ -23,7 +23,7 @@ def run(tier):
     rng = random.Random(vlib.seed())
 
     mc = vlib.run_tlc("MC_FiatShamir.tla", f"MC_Binding_{tier}.cfg", "C03", workers=vlib.NCPU,
-                      timeout=3000 if tier == "thorough" else 900)
+                      timeout=5400 if tier == "thorough" else 900)
     if mc["violated"]:
         raise vlib.ToolError(f"MC_Binding violates {mc['violated']} (model error)")
     vlib.require_tlc_ok(mc, "MC_Binding")
